@@ -128,6 +128,7 @@ func runC09(p *eng.Prog, r *eng.Report, tier string) {
 	// C09.18 (= C06.6) every response is released exactly once: an unreleased
 	// response wedges the serve loop, a second release panics
 	respRelease(c, "C09.18", 8)
+	respIterContract(c, "C09.18")
 	// C09.17 lock order
 	lockOrder(c, "C09.17")
 	// C09.16 handler callbacks are nil-tested
